@@ -214,6 +214,21 @@ def _partial(t, mdk, dk):
         fr2 = make_frame(E, t, f)
         one = E.call(E.lookup(FR + 'serialize_with_frame_size_header'), [fr2])
         E.prove('oneshot:equals_length_prefixed_encoding', M.b_eq_goal(E, one, exp, 'one'))
+        if f.get('data') is not None and t in HAS_DATA:
+            # the length prefix is that of the frame's CURRENT content: the same frame object written again after its data
+            # changed (a frame that was decoded and is forwarded with other data, a frame re-used by the application)
+            d2 = E.fresh_bytes('data2')
+            f2 = dict(f, data=d2)
+            if t == W.T_PAYLOAD:
+                f2['flags_next'] = E.getattr(fr, 'flags_next')      # the frame's current fields (encoding content sets the flag on the object)
+            enc2 = W.ENC(t, f2)
+            E.assume(lift_bytes(enc2).len_term() < (1 << 24))
+            E.setattr(fr, 'data', d2)
+            prefix2 = E.call(E.lookup(FR + 'serialize_prefix_with_frame_size_header'), [fr])
+            written2 = []
+            E.call(E.getattr(fr, 'write_data_metadata'), [Builtin('writer.write', lambda b: written2.append(b))])
+            E.prove('partial:written_again_after_its_data_changed_the_length_prefix_is_that_of_the_new_content[no stale length]',
+                    M.b_eq_goal(E, M.b_concat_all([prefix2] + written2), W.with_length_prefix(enc2), 'part2'))
     return run
 
 
